@@ -17,7 +17,7 @@
    Result, per coordinate c of the computed end point q and of
    q* = adjust_R ... :
        | q.c - q*.c |  <=  2^-24 * ( |prev.c| + 9.05 * (L - lp) ) + 2^-127 . *)
-From RM Require Import Model.ControlPoints Model.Curve Proofs.FloatFacts Proofs.LengthFacts Proofs.AdjustExact Proofs.AdjustIEEEBase.
+From RM Require Import Model.ControlPoints Model.Curve Proofs.FloatFacts Proofs.LengthFacts Proofs.LengthBound Proofs.AdjustExact Proofs.AdjustIEEEBase.
 From Flocq Require Import Core BinarySingleNaN.
 From Coq Require Import Reals Lra Psatz.
 Open Scope R_scope.
@@ -270,8 +270,7 @@ Qed.
 
 (* ---------- both coordinates: the model's expression ---------- *)
 
-(* finite binary32 value of magnitude at most 2^k *)
-Definition bnd32 (x : F32) (k : Z) : Prop := fin x /\ Rabs (B2R x) <= pw k.
+(* [bnd32 x k] (LengthBound): x is finite and |x| <= 2^k *)
 Definition R2 (p : Pos) : P2 := (B2R (px p), B2R (py p)).
 
 (* the hypotheses of the bound, as one predicate on the model's inputs *)
